@@ -877,7 +877,13 @@ impl Exec {
                 hs.insert(it.ks, self.handle(it.ks)?);
             }
         }
-        let mut b = self.db().batch();
+        // both public ways to obtain a batch: Database::batch() and OwnedWriteBatch::with_capacity()
+        let mut b = if items.len() % 2 == 1 {
+            self.stats.inc("batches_via_with_capacity");
+            fjall::OwnedWriteBatch::with_capacity(self.db().clone(), items.len())
+        } else {
+            self.db().batch()
+        };
         if let Some(d) = durability(dur) {
             b = b.durability(d);
         }
